@@ -302,6 +302,24 @@ func (t *T) FieldsCollide() bool {
 	return false
 }
 
+// HasIdenticalMembers reports whether some struct of t names two members
+// identically (a struct that cannot exist in any language binding).
+func (t *T) HasIdenticalMembers() bool {
+	return t.Contains(func(x *T) bool {
+		if x.Kind != Struct {
+			return false
+		}
+		seen := map[string]bool{}
+		for _, f := range x.Fields {
+			if seen[f] {
+				return true
+			}
+			seen[f] = true
+		}
+		return false
+	})
+}
+
 // Comparable predicts whether a Go representation of t can be a map key:
 // lists, maps and object references (whose meta-object holds maps) cannot.
 func (t *T) Comparable() bool {
